@@ -237,7 +237,7 @@ static string fpLiteral(const APFloat& f, Type* t) {
   return "";
 }
 
-static string gepExpr(Type* srcElemTy, const Value* base, ArrayRef<const Value*> idx, Type* resultPtrTy) {
+static string gepExpr(Type* srcElemTy, const Value* base, ArrayRef<const Value*> idx, Type* resultPtrTy, bool* asLvalue = nullptr) {
   // &base[i0].fK.a[i]...
   string e = "(" + val(base) + ")";
   Type* cur = srcElemTy;
@@ -263,6 +263,10 @@ static string gepExpr(Type* srcElemTy, const Value* base, ArrayRef<const Value*>
     }
   }
   if (cur->isFunctionTy()) die("GEP to function");
+  if (asLvalue) {
+    if (resultPtrTy->getPointerElementType() == cur && !cur->isAggregateType()) { *asLvalue = true; return acc; }
+    *asLvalue = false;
+  }
   return "((" + cty(resultPtrTy) + ")&" + acc + ")";
 }
 
@@ -695,6 +699,24 @@ static string normName(StructType* st) {
   }
   return n;
 }
+// a load/store through a GEP with a variable index is emitted as the lvalue base[0].field.a[i] rather than through
+// the pointer temporary: CBMC then updates the one array member instead of byte-updating the whole enclosing object at an
+// unknown offset (which destroys constant propagation of every other member, vptrs included). Sound by SSA dominance: the
+// GEP's operands have the same values at the dominated use.
+static string ptrAccess(const Value* p) {
+  if (auto* g = dyn_cast<GetElementPtrInst>(p)) {
+    bool var = false;
+    for (auto it = g->idx_begin(); it != g->idx_end(); ++it) if (!isa<Constant>(it->get())) var = true;
+    if (var && !g->getType()->isVectorTy()) {
+      std::vector<const Value*> idx;
+      for (auto it = g->idx_begin(); it != g->idx_end(); ++it) idx.push_back(it->get());
+      bool lv = false;
+      string e = gepExpr(g->getSourceElementType(), g->getPointerOperand(), idx, g->getType(), &lv);
+      return lv ? e : "*(" + e + ")";
+    }
+  }
+  return "*(" + val(p) + ")";
+}
 // class-hierarchy filter: the candidate's 'this' class must be the static class or contain it as a (nested) base subobject
 static bool derivesFrom(Type* cand, const string& base, int depth) {
   auto* st = dyn_cast<StructType>(cand);
@@ -734,6 +756,9 @@ static bool vtableSlot(const Value* callee, int64_t& slot) {
   if (!t->isPointerTy() || !t->getPointerElementType()->isPointerTy() || !t->getPointerElementType()->getPointerElementType()->isFunctionTy()) return false;
   return true;
 }
+// candidates excluded by name (--devirt-exclude): stays sound because a call whose target is not among the emitted
+// candidates fails the "virtual-call-target-not-in-any-vtable-slot" check instead of being ignored
+static std::vector<string> g_devirtExclude;
 static std::vector<const Function*> slotCandidates(int64_t slot, FunctionType* ft) {
   std::vector<const Function*> out; std::set<const Function*> seen;
   for (const GlobalVariable* G : C.gOrder) {
@@ -751,7 +776,11 @@ static std::vector<const Function*> slotCandidates(int64_t slot, FunctionType* f
         int64_t idx = (int64_t)p0 + slot;
         if (idx < 0 || idx >= (int64_t)arr->getNumOperands()) continue;
         if (auto* f = dyn_cast<Function>(arr->getOperand(idx)->stripPointerCasts()))
-          if (sameShape(f->getFunctionType(), ft) && thisCompatible(ft, f) && seen.insert(f).second) out.push_back(f);
+          if (sameShape(f->getFunctionType(), ft) && thisCompatible(ft, f) && seen.insert(f).second) {
+            bool ex = false;
+            for (auto& e : g_devirtExclude) if (f->getName().contains(e)) ex = true;
+            if (!ex) out.push_back(f);
+          }
       }
     }
   }
@@ -923,9 +952,9 @@ static void emitFunction(const Function* F, std::ostream& out, bool lineInfo) {
           body << "  " << lhs << "&" << mem << "[0];\n";
         }
       } else if (auto* li = dyn_cast<LoadInst>(&I)) {
-        body << "  " << lhs << "*(" << val(li->getPointerOperand()) << ");\n";
+        body << "  " << lhs << ptrAccess(li->getPointerOperand()) << ";\n";
       } else if (auto* si = dyn_cast<StoreInst>(&I)) {
-        body << "  *(" << val(si->getPointerOperand()) << ") = " << val(si->getValueOperand()) << ";\n";
+        body << "  " << ptrAccess(si->getPointerOperand()) << " = " << val(si->getValueOperand()) << ";\n";
       } else if (auto* g = dyn_cast<GetElementPtrInst>(&I)) {
         std::vector<const Value*> idx;
         for (auto it = g->idx_begin(); it != g->idx_end(); ++it) idx.push_back(it->get());
@@ -1228,6 +1257,7 @@ int main(int argc, char** argv) {
     else if (a == "--stub") stubs.insert(argv[++i]);
     else if (a == "--stub-containing") stubSubs.push_back(argv[++i]);
     else if (a == "--skip-ctor") skipCtors.push_back(argv[++i]);
+    else if (a == "--devirt-exclude") g_devirtExclude.push_back(argv[++i]);
     else if (a == "--entry") entry = argv[++i];
     else if (a == "--no-line") lineInfo = false;
     else in = a;
